@@ -351,8 +351,20 @@ def other_case(ctx: Ctx, case: dict):
         nh = len(handles)
         ctx.count(f"{site}_op_{op['op']}")
         snap = {"kind": "other", **{k: v for k, v in case.items() if k not in ("ops", "n_ops")}, "ops": list(ops[:i]), "n_ops": 0}
+        vbefore = None
+        if seq and op["op"] == "vassign":
+            vbefore = {k: list(v) for k, v in handles[tgt].get_parameters(unpack_singleton=False).items()}
         try:
             ret = seq_apply(ctx, handles, fam, op) if seq else rv_apply(ctx, handles, fam, op, case, db)
+            if vbefore is not None:
+                # assigning through the view m[k] changes variant k of m and no other variant (every handle here holds pairwise
+                # distinct variants by construction: views take a single index)
+                vnow = {k: list(v) for k, v in handles[tgt].get_parameters(unpack_singleton=False).items()}
+                want = {k: list(v) for k, v in vbefore.items()}
+                want[op["name"]][op["k"]] = op["x"]
+                if vnow != want:
+                    ctx.fail("sequential-variant-assign-leaks", snap,
+                             f"op #{i - 1} {op}: parameters became {vnow}, expected {want}")
         except Exception as e:
             if len(handles) != nh:
                 del handles[nh:]; del fam[nh:]
